@@ -704,6 +704,39 @@ def translate_paths():
     meta["exit_messages_declared"] = declared
     meta["data_msg_id"] = mid
 
+    # --- how an exit socket comes into being: join_circuit(create_payload, previous_node_address)   (model: Ev.join / joinSock)
+    jc = _method(comm, "join_circuit", ["self", "create_payload", "previous_node_address"], COMM)
+    assigns = {}
+    for n in ast.walk(jc):
+        if isinstance(n, ast.Assign) and len(n.targets) == 1:
+            assigns.setdefault(ast.unparse(n.targets[0]), []).append(ast.unparse(n.value))
+        if isinstance(n, (ast.AugAssign, ast.AnnAssign, ast.NamedExpr)):
+            raise TranslatorError(f"{COMM}:{n.lineno}: join_circuit: assignment form outside the subset")
+    want = {"circuit_id": ["create_payload.circuit_id"],
+            "peer": ["Peer(create_payload.node_public_key, previous_node_address)"],
+            "self.exit_sockets[circuit_id]": ["TunnelExitSocket(circuit_id, Hop(peer, session_keys), self)"]}
+    for k, v in want.items():
+        if assigns.get(k) != v:
+            raise TranslatorError(f"{COMM}:{jc.lineno}: join_circuit: `{k}` is assigned {assigns.get(k)}, expected exactly {v} "
+                                  "(the new exit socket's hop must be a Peer at the address the CREATE came from)")
+    oc_ = [f for f in comm.body if isinstance(f, ast.AsyncFunctionDef) and f.name == "on_create"]
+    if len(oc_) != 1 or "self.join_circuit(payload, source_address)" not in ast.unparse(oc_[0]):
+        raise TranslatorError(f"{COMM}: on_create no longer calls self.join_circuit(payload, source_address)")
+    init = _method(sock, "__init__", ["self", "circuit_id", "hop", "overlay"], SRC)
+    itxt = ast.unparse(init)
+    for need in ("self.hop = hop", "self.enabled = False", "self.transport_ipv4: DatagramTransport | None = None",
+                 "self.transport_ipv6: DatagramTransport | None = None"):
+        if need not in itxt:
+            raise TranslatorError(f"{SRC}:{init.lineno}: TunnelExitSocket.__init__ lacks `{need}`")
+    tun = ast.parse((REPO / TUNNEL).read_text())
+    hop_cls = find_class(tun, "Hop")
+    addr = [f for f in hop_cls.body if isinstance(f, ast.FunctionDef) and f.name == "address"]
+    body_ = [x for x in (addr[0].body if addr else []) if not (isinstance(x, ast.Expr) and isinstance(x.value, ast.Constant))]
+    if len(addr) != 1 or len(body_) != 1 or ast.unparse(body_[0]) != "return self.peer.address":
+        raise TranslatorError(f"{TUNNEL}: Hop.address is not `return self.peer.address`")
+    meta["join_circuit"] = "hop = Peer(node_public_key, previous_node_address); socket starts closed"
+    srcs_c.append(jc)
+
     txt = "".join(ast.get_source_segment(es_src, f) or "" for f in srcs) + "".join(ast.get_source_segment(cm_src, f) or "" for f in srcs_c)
     head = ("/-\n  GENERATED by tools/gen_exitpolicy.py (part 2) from exit_socket.py and community.py — do not edit.\n"
             f"  sha1 of the translated method sources: {hashlib.sha1(txt.encode()).hexdigest()[:16]}\n"
@@ -711,7 +744,8 @@ def translate_paths():
             "  callback re-enters self.sendto; tunnel_data = overlay.send_data(hop.address, circuit_id, (\"0.0.0.0\", 0), source, data);\n"
             "  self.exit_data is referenced from on_data only; on_data is registered once, as the cell handler of DataPayload;\n"
             "  on_packet_from_circuit dispatches by data[22] through decode_map_private; exit_msg_ids is filled only by\n"
-            "  add_cell_handler(..., from_exit=True) and read only by on_data.\n-/\n"
+            "  add_cell_handler(..., from_exit=True) and read only by on_data; join_circuit creates the exit socket with\n"
+            "  hop = Peer(create_payload.node_public_key, previous_node_address), closed.\n-/\n"
             "import Ipv8.C06.IR\n\nnamespace Ipv8.C06.Gen\nopen Ipv8.C06\n\n")
     body = f"/-- DataPayload.msg_id (payload.py) -/\ndef DATA_MSG_ID : Nat := {mid}\n\n"
     body += ("/-- the message types registered with `add_cell_handler(..., from_exit=True)` in community.py / hidden_services.py: "
